@@ -37,6 +37,7 @@ InDomain(e) ==
     /\ (IOEnv.C09_KNOWN_BAD = "include" \/ ~KnownBadCombination(e.svd, e.dtype, e.pow2))   \* ./check C09 --opt known_bad=include
     /\ (e.dtype \in {"int64", "int32"} => e.ten.op = "matching" \/ e.ten.fam \in IntegerFams)
     /\ ValidRankSpec(e.cfg, e.rspec, e.frac) /\ e.via \in Vias
+    /\ e.mspec \in ModeSpecs /\ (e.cfg.op # "tr" => e.mspec = "int")
     /\ (e.via = "refit" => /\ Len(e.pre) = Len(e.cfg.shape)
                             /\ \A k \in 1..Len(e.pre) : e.pre[k] \in 1..16)       \* shape of the tensor fitted first
     /\ e.svd \in Svds /\ e.iters \in Iters \cup {0} /\ (e.cfg.op # "tucker" => e.iters = 0)
@@ -96,6 +97,7 @@ Verdict(e) ==
          ELSE LET c == [e.cfg EXCEPT !.rank = e.out.ranks] IN
               IF Raises(c) \/ ExpRanks(c) # e.out.ranks THEN "Ranks"     \* boundary conditions, realisable
               ELSE Judge(e, c)
+    ELSE IF Lenient(e.rspec, e.mspec) /\ e.out.raised /\ e.out.exc \in {"ValueError", "TypeError"} THEN "ok"     \* refused
     ELSE IF e.out.raised # Raises(e.cfg) THEN "Outcome"
     \* the documented error: a ValueError that is about the rank (not, e.g., a reshape failure further down)
     ELSE IF e.out.raised /\ (e.out.exc # "ValueError" \/ ~e.out.about_rank) THEN "Outcome"
